@@ -132,11 +132,11 @@ Qed.
 
 (* The string-level substitution theorem: what Merger.merge_child returns for an O-marker reads as the host's molecule
    with the marker atom replaced by the child's molecule. *)
-Theorem merge_child_sem sym nsym me child Mh Mk :
+Theorem sub_marker_sem sym me child Mh Mk :
   splice_str_check sym me child = true -> sem_str me = Some Mh -> sem_str child = Some Mk ->
   exists p m q tp am tq a0 rest st c sk Me N1 N2 A2 B2,
     find_marker sym me = Some (p, m, q) /\
-    merge_child me sym nsym child = MOk (p ++ child ++ q) /\
+    sanitize (sub_marker (S (length me)) sym child me) = MOk (p ++ child ++ q) /\
     lexS p = Some tp /\ lexS m = Some [TAtom am] /\ lexS q = Some tq /\ lexS child = Some (TAtom a0 :: rest) /\
     run pst0 tp = Some st /\ p_cur st = Some c /\ run pst0 (TAtom a0 :: rest) = Some sk /\
     sem_str (p ++ child ++ q) = Some Me /\
@@ -182,12 +182,33 @@ Proof.
   destruct (splice_sem tp am tq a0 rest st c Mh Mk Er Ecur Epd Hk Hnd (fresh_of_check _ _ Efr) Hpost Hh)
     as (sk & Me & N1 & N2 & A2 & B2 & S1 & S2 & S3 & S4 & S5 & S6 & S7 & S8 & S9).
   exists p, m, q, tp, am, tq, a0, rest, st, c, sk, Me, N1, N2, A2, B2.
-  assert (Emerge : merge_child me sym nsym child = MOk (p ++ child ++ q)).
-  { unfold merge_child. rewrite Hc.
-    rewrite (sub_marker_once sym child me (S (length me)) p m q Ef Hq ltac:(lia)). apply sanitize_id. assumption. }
+  assert (Emerge : sanitize (sub_marker (S (length me)) sym child me) = MOk (p ++ child ++ q)).
+  { rewrite (sub_marker_once sym child me (S (length me)) p m q Ef Hq ltac:(lia)). apply sanitize_id. assumption. }
   assert (Esem : sem_str (p ++ child ++ q) = Some Me).
   { unfold sem_str, opt_bind. rewrite (lexS_app3 p child q tp (TAtom a0 :: rest) tq Ep Ec Eq) by assumption. exact S2. }
   repeat split; try assumption; reflexivity.
+Qed.
+
+Definition n_text (child : str) : str := "N"%char :: "("%char :: tl child ++ [")"%char].
+
+(* O-marker: the child's text replaces the marker *)
+Corollary merge_child_sem sym nsym me child :
+  splice_str_check sym me child = true ->
+  merge_child me sym nsym child = sanitize (sub_marker (S (length me)) sym child me).
+Proof.
+  intro H. unfold merge_child. unfold splice_str_check in H.
+  destruct (find_marker sym me) as [[[p m] q]|]; [|discriminate].
+  apply andb_true_iff in H as [H _]. apply andb_true_iff in H as [Hc _]. rewrite Hc. reflexivity.
+Qed.
+
+(* N-marker: "N(" + child[1:] + ")" replaces the marker, when the parent has no O-marker of this pair *)
+Corollary merge_child_sem_N osym nsym me child :
+  containsb osym me = false -> splice_str_check nsym me (n_text child) = true ->
+  merge_child me osym nsym child = sanitize (sub_marker (S (length me)) nsym (n_text child) me).
+Proof.
+  intros Ho H. unfold merge_child. rewrite Ho. unfold splice_str_check in H.
+  destruct (find_marker nsym me) as [[[p m] q]|]; [|discriminate].
+  apply andb_true_iff in H as [H _]. apply andb_true_iff in H as [Hc _]. rewrite Hc. reflexivity.
 Qed.
 
 (* the loop of merge_int: for every child, does the string-level theorem apply to its substitution? *)
@@ -196,7 +217,7 @@ Fixpoint splice_str_children (me : str) (pairs : list (str * str)) (children : l
   | [], _ => []
   | _, [] => []
   | ch :: cr, (osym, nsym) :: pr =>
-      (containsb osym me && splice_str_check osym me ch) ::
+      (if containsb osym me then splice_str_check osym me ch else splice_str_check nsym me (n_text ch)) ::
       match merge_child me osym nsym ch with
       | MOk me' => splice_str_children me' pr cr
       | MRaise => []
